@@ -3,6 +3,7 @@ package props
 import (
 	"encoding/json"
 	"fmt"
+	"os"
 	"regexp"
 	"sort"
 	"strings"
@@ -136,6 +137,17 @@ func TestC14(t *testing.T) {
 			pool = append(pool, f.Name, strings.TrimSuffix(f.Name, ".go"), f.Pkg.Dir+"/", f.Pkg.Dir+"/"+f.Name, f.Pkg.Dir+"/"+f.Name[:2])
 		}
 		pool = append(pool, "_test", "testdata", "nomatch", "f1", "0.go")
+		// an entry that happens to occur in the directory the real drivers work in would
+		// exclude everything there and nothing in-process: not a token of the program
+		if sc := os.Getenv("VERIF_SCRATCH"); sc != "" {
+			kept := pool[:0]
+			for _, tok := range pool {
+				if !strings.Contains(sc+"/p0-0/w/", tok) {
+					kept = append(kept, tok)
+				}
+			}
+			pool = kept
+		}
 		// cases that also go through the real drivers prefer directory entries (go vet starts
 		// the tool in each package's directory: a relative reading of the entry would differ)
 		wantExt := extN < extBudget && engine.BinPath() != "" && rapid.IntRange(0, 9).Draw(rt, "external") < 3
